@@ -50,6 +50,7 @@ def stream_path(which, prefixes, p_free, periods, total, chunks, ascii_only=Fals
         reps = (total - len(prefix)) // len(period) + 1
         stream = list(prefix) + period * reps
         w = {"which": which, "prefix": SBytes(list(prefix)), "period": SBytes(period), "reps": reps, "chunk": chunk}
+        ctx.intend(w)
         ctx.witness = w
         rd = make_reader(which)
         worst = 0
